@@ -4,6 +4,7 @@ use crate::pools;
 use crate::props::c03::*;
 use crate::rng::Rng;
 use crate::scripted::*;
+use crate::wire::*;
 use crate::{Case, Prop, Tier};
 
 pub struct C13Prop;
@@ -23,6 +24,15 @@ impl Prop for C13Prop {
         }
     }
     fn generate(&self, rng: &mut Rng, _tier: Tier) -> Case {
+        if rng.chance(1, 3) {
+            return gen_structured_halt(rng);
+        }
+        if rng.chance(1, 40) {
+            // a second thread raises the flag at a random instant of a loop that never ends by itself
+            let shape = rng.below(4);
+            let delay_us = rng.below(3000);
+            return Case { req: format!("c13t {} {}", shape, delay_us), in_domain: true, nontrivial: true, tags: vec!["second-thread"] };
+        }
         let (text, n) = gen_program(rng, 15);
         let mut names: Vec<String> = ["c0", "c1", "c2", "c3"].iter().map(|s| s.to_string()).collect();
         let on_error = rng.chance(1, 2);
@@ -48,11 +58,49 @@ impl Prop for C13Prop {
         let fuel = (qn + 3) * (n + 3) + 10;
         Case { req: mk_req(&text, &names, &queue, Some(halt_at), &vars, fuel), in_domain: true, nontrivial: halt_at <= qn, tags: vec![if on_error { "on_error" } else { "no-handler" }] }
     }
-    fn run_impl(&self, req: &str, _model: &str) -> String {
+    fn run_impl(&self, req: &str, model: &str) -> String {
+        if req.starts_with("c13t ") {
+            let t: Vec<&str> = req.split(' ').collect();
+            return run_second_thread(t[1].parse().unwrap(), t[2].parse().unwrap());
+        }
+        if req.starts_with("c13s ") {
+            let t: Vec<&str> = req.split(' ').collect();
+            let m: Vec<&str> = model.split(' ').collect();
+            if m.len() != 3 || !m[0].starts_with('T') {
+                return format!("no-model-output {}", model);
+            }
+            let text = dec_str(&m[0][1..]).unwrap();
+            let vars = crate::scripted::dec_vars(t[2]);
+            let out = crate::sdkenv::run_structured_halting(&text, &vars);
+            return format!("{} M:{} {}", m[0], out.replace(' ', "_"), m[2]);
+        }
         let r = parse_req(req);
         run_scripted(&r.text, None, &r.names, &r.queue.join(","), r.halt_at, &r.vars)
     }
     fn relation(&self, req: &str, _model: &str, imp: &str) -> Option<bool> {
+        if imp == "PANIC" {
+            return Some(false);
+        }
+        if req.starts_with("c13t ") {
+            return Some(imp == "sched ok");
+        }
+        if req.starts_with("c13s ") {
+            // model-independent: the run returns Ok and nothing is emitted after `emit __halt__`
+            let out = imp.split(' ').nth(1)?;
+            if out == "M:timeout" {
+                return None;
+            }
+            if !out.starts_with("M:ok_") {
+                return Some(false);
+            }
+            let emit = out.split("_EMIT_").nth(1).unwrap_or("");
+            let entries: Vec<&str> = if emit.is_empty() { vec![] } else { emit.split(';').collect() };
+            let h = enc_list(&["__halt__".to_string()]);
+            return Some(match entries.iter().position(|e| *e == h) {
+                Some(p) => p + 1 == entries.len(),
+                None => true,
+            });
+        }
         // model-independent: once the k-th invocation has raised the flag, at most one more
         // invocation may be logged (on_error of an in-flight failing instruction)
         let r = parse_req(req);
@@ -64,9 +112,130 @@ impl Prop for C13Prop {
         Some(logged <= k + 1)
     }
     fn shrink(&self, req: &str) -> Vec<String> {
+        if req.starts_with("c13t ") {
+            return vec![];
+        }
+        if req.starts_with("c13s ") {
+            return crate::props::c04::shrink_tree(req).into_iter().map(|r| r.replacen("c04 ", "c13s ", 1)).collect();
+        }
         shrink_run(req)
     }
     fn describe(&self, req: &str) -> String {
+        if req.starts_with("c13t ") {
+            let t: Vec<&str> = req.split(' ').collect();
+            return format!("endless loop of shape {} ({}), flag raised by a second thread after {} us", t[1], LOOPS[t[1].parse::<usize>().unwrap() % LOOPS.len()].replace('\n', " / "), t[2]);
+        }
+        if req.starts_with("c13s ") {
+            return format!("structured program (emit __halt__ raises the flag) {}", crate::props::c04::describe_tree(req));
+        }
         describe_run(req)
     }
+    fn outcome_kind(&self, imp: &str) -> String {
+        if imp.starts_with('T') {
+            return imp.split(' ').nth(1).map(|s| s.trim_start_matches("M:").split('_').next().unwrap_or("").to_string()).unwrap_or("odd".into());
+        }
+        imp.split(' ').next().unwrap_or("odd").to_string()
+    }
+}
+
+/// a structured program (if / while / for-in / functions, functions also in condition
+/// position) in which one `emit` — at top level, inside a block, inside a function body that
+/// may run in the nested evaluator — is `emit __halt__`
+fn gen_structured_halt(rng: &mut Rng) -> Case {
+    let vars = crate::props::c04::init_vars(rng);
+    let (mut toks, _rif, _nf) = crate::props::c05::gen_program(rng, false);
+    let emit = enc_str("emit");
+    let sites: Vec<usize> = (0..toks.len()).filter(|&i| toks[i] == "L" && i + 3 < toks.len() && toks[i + 2] == emit).collect();
+    let halt_args = enc_list(&["__halt__".to_string()]);
+    let mut tags = vec!["structured"];
+    if sites.is_empty() {
+        // no emit anywhere: the flag is raised by a last top-level line
+        let n: usize = toks[0][1..].parse().unwrap();
+        toks[0] = format!("B{}", n + 1);
+        toks.extend(crate::props::c04::line(None, "emit", &["__halt__".to_string()]));
+        tags.push("halt-last");
+    } else {
+        let at = sites[rng.below(sites.len())];
+        toks[at + 3] = halt_args;
+        tags.push("halt-inside");
+    }
+    if toks.iter().any(|t| t == "D") {
+        tags.push("fn");
+    }
+    Case { req: format!("c13s {} {} 6000", toks.join(";"), vars), in_domain: true, nontrivial: !sites.is_empty(), tags }
+}
+
+/// loops that never end by themselves: goto, while over a value, while over a command
+/// condition (nested evaluator), for-in over a large range with an inner if
+const LOOPS: [&str; 4] = [
+    ":top\ntick\ngoto :top\n",
+    "while true\n  tick\nend\n",
+    "while not tick\n  x = set 1\nend\n",
+    "r = range 0 20000\nfor i in ${r}\n  for j in ${r}\n    for k in ${r}\n      if true\n        tick\n      end\n    end\n  end\nend\n",
+];
+
+#[derive(Clone)]
+struct Tick {
+    /// ticks that ran although they could already see the flag set
+    saw_flag: std::sync::Arc<std::sync::atomic::AtomicUsize>,
+    total: std::sync::Arc<std::sync::atomic::AtomicUsize>,
+}
+impl duckscript::types::command::Command for Tick {
+    fn name(&self) -> String { "tick".to_string() }
+    fn clone_and_box(&self) -> Box<dyn duckscript::types::command::Command> { Box::new(self.clone()) }
+    fn run(&self, ctx: duckscript::types::command::CommandInvocationContext) -> duckscript::types::command::CommandResult {
+        use std::sync::atomic::Ordering;
+        self.total.fetch_add(1, Ordering::SeqCst);
+        if ctx.env.halt.load(Ordering::SeqCst) {
+            self.saw_flag.fetch_add(1, Ordering::SeqCst);
+        }
+        duckscript::types::command::CommandResult::Continue(None)
+    }
+}
+
+fn run_second_thread(shape: usize, delay_us: u64) -> String {
+    use std::sync::atomic::{AtomicBool, AtomicUsize, Ordering};
+    use std::sync::Arc;
+    let mut ctx = crate::sdkenv::sdk_context();
+    let saw = Arc::new(AtomicUsize::new(0));
+    let total = Arc::new(AtomicUsize::new(0));
+    ctx.commands.set(Box::new(Tick { saw_flag: saw.clone(), total: total.clone() })).unwrap();
+    let halt = Arc::new(AtomicBool::new(false));
+    let h2 = halt.clone();
+    let raised_at = Arc::new(std::sync::Mutex::new(None));
+    let r2 = raised_at.clone();
+    let raiser = std::thread::spawn(move || {
+        std::thread::sleep(std::time::Duration::from_micros(delay_us));
+        // (noted BEFORE the store: the run may return the very moment the flag is up)
+        *r2.lock().unwrap() = Some(std::time::Instant::now());
+        h2.store(true, Ordering::SeqCst);
+        // a changed implementation that resets the flag must still come back: raise it again and again
+        for _ in 0..400 {
+            std::thread::sleep(std::time::Duration::from_millis(5));
+            h2.store(true, Ordering::SeqCst);
+        }
+    });
+    let text = LOOPS[shape % LOOPS.len()];
+    let res = duckscript::runner::run_script(text, ctx, Some(crate::sdkenv::quiet_env(Some(halt.clone()))));
+    let returned = std::time::Instant::now();
+    let raised = raised_at.lock().unwrap().clone();
+    drop(raiser); // detached: it only touches its own Arc clones
+    let late = match raised {
+        Some(t) => returned.duration_since(t).as_millis() > 4000,
+        None => false, // returned before the flag was raised?!
+    };
+    if res.is_err() {
+        return "sched run-failed".to_string();
+    }
+    if raised.is_none() {
+        return "sched returned-before-halt".to_string();
+    }
+    if late {
+        return "sched late".to_string();
+    }
+    let extra = saw.load(Ordering::SeqCst);
+    if extra > 1 {
+        return format!("sched ticks-after-flag={}", extra);
+    }
+    "sched ok".to_string()
 }
